@@ -7,6 +7,7 @@ import (
 	securityclient "istio.io/client-go/pkg/apis/security/v1"
 	"istio.io/istio/pilot/pkg/model"
 	"istio.io/istio/pkg/kube/krt"
+	"istio.io/istio/pkg/util/sets"
 	"istio.io/istio/pkg/workloadapi/security"
 )
 
@@ -43,4 +44,10 @@ func VerifBuildWorkloadPolicies(ctx krt.HandlerContext, authorizationPolicies kr
 	workloadLabels map[string]string, workloadNamespace string,
 ) []string {
 	return buildWorkloadPolicies(ctx, authorizationPolicies, peerAuthsByNs, meshCfg, workloadLabels, workloadNamespace)
+}
+
+// VerifIndexPolicies runs index.Policies (what the workload-authorization xDS generator serves to
+// ztunnel for a set of requested policy keys; nil = everything) over the given policy collection.
+func VerifIndexPolicies(policies krt.Collection[model.WorkloadAuthorization], requested sets.Set[model.ConfigKey]) []model.WorkloadAuthorization {
+	return (&index{authorizationPolicies: policies}).Policies(requested)
 }
